@@ -44,8 +44,14 @@ async def scenario(world, spec):
     wf = inc.add_workflow("wf", spec)
     await inc.start()
     # store faults on the handlers table
-    mode = world.tape.choice(["none", "none", "transient", "transient", "persistent", "spaced"], "fault.mode")
+    mode = world.tape.choice(["none", "none", "transient", "transient", "persistent", "spaced", "event-append"], "fault.mode")
     world._fault_mode = mode
+    if mode == "event-append" and world.backend == "sqlite":
+        # ONE transient error on an insert into the event log (append_event), at a tape-chosen position of the run's stream
+        world._fault_mode = "transient"
+        SEAM.fault_plan.append({"table": "events", "verb": "INSERT", "n": 1, "skip": world.tape.rng_int(0, 8, "fault.ev.skip"), "inc": 1})
+        world.probe("event-append-fault-planned")
+        mode = "none"
     if mode == "spaced" and world.backend == "sqlite":
         # several separate writes each hit ONE transient error (never two in a row): every one of them is within the
         # per-write retry budget, however many there have been before
